@@ -98,10 +98,14 @@ CLAIMED = {
          "(qsbr_no_lost_wakeup, qsbr_armed_visible); bp has no futex (poll loop) and is covered by the tie and the budget detector. "
          "lock_order_deadlock_free (Gp/Locks.lean: the wait-for graph of rcu_gp_lock / rcu_registry_lock has no cycle, chains <= 2, for any "
          "number of synchronize_rcu callers and (un)registering threads; discipline tied by the LOCK/UNLOCK events of the trace). "
-         "Liveness with fairness as an explicit hypothesis on the infinite run (Machine/Fair.lean: weak fairness, leads-to by measure; "
-         "Props/LiveC02.lean): leader_eventually_woken, readers_eventually_done, gp_eventually_completes, waiter_eventually_returns, "
-         "qsbr_leader_eventually_woken. Partial: bp's init_lock is outside the lock model; the liveness theorems are about the "
-         "handshake models, their composition with the scan loop is by interface.",
+         "Liveness with fairness as an explicit hypothesis on the infinite run (Machine/Fair.lean: weak fairness, leads-to by measure): on "
+         "the two-pass grace-period model itself (Props/LiveC02Gp.lean) synchronize_rcu_eventually_returns - a grace period that has "
+         "started reaches uEnd on every run with a weakly fair updater, draining store buffers (and forced fences with sys_membarrier), "
+         "read-side sections that end (new ones may start at any time, handler frames included) and registration churn that stops; "
+         "registration_churn_must_stop (machine-checked infinite run showing that proviso is necessary); "
+         "qsbr_synchronize_rcu_eventually_returns; on the handshake models (Props/LiveC02.lean) leader_eventually_woken, "
+         "readers_eventually_done, gp_eventually_completes, waiter_eventually_returns, qsbr_leader_eventually_woken. Partial: bp's "
+         "init_lock is outside the lock model; the scan-loop model and the futex-handshake model are composed by interface.",
     note="Trusted: Lean kernel; x86-TSO + futex + sys_membarrier contracts; fair scheduler for 'eventually'; the abstract handshake "
          "models are related to the code by the event-level replay on explored schedules only.",
     technique="Lean 4 inductive-invariant proofs (TSO futex handshake, wait-node hand-over) + event-level trace refinement with fault injection and systematic preemption sweep",
@@ -313,9 +317,14 @@ CLAIMED = {
          "resident_found (cds_lfht_lookup never answers 'not found' while a node with that hash and key stays visible - under adds, "
          "removals, replaces, helping and resizes). Tie: the real src/rculfhash.c (+ urcu.c memb, workqueue.c, the three mm plug-ins) under the shim; 2-4 workers + resizer + lazy-resize worker; random / PCT / one-preemption sweep over 22 directed scripts (seed-independent); every next word, ht->size access, memory order and API result replayed by Driver/LfhtConc.lean on the model; partitioned resize (helper threads) in the thorough tier; oracles lin (Wing-Gong linearizability search against a "
          "reference multimap on small histories), resident, replabsent. C05_full_holds additionally gives resident_found_traversal "
-         "(first/next traversals across calls through the saved iterator; position invariant NotYet). Partial: global "
-         "linearizability against a multimap is not a theorem (linearisation-point facts proved, the Wing-Gong oracle checks "
-         "explored schedules only).",
+         "(first/next traversals across calls through the saved iterator; position invariant NotYet). Linearizability "
+         "(Props/C05Lin.lean): lfht_linearizable_partial - every completed add / add_unique / add_replace / replace / del / lookup call, "
+         "incl. lookup 'not found', has a linearisation point between its call and its return at which the multiset-per-key "
+         "specification (Lfht/Conc/LinSpec.lean) takes exactly its effect and returns exactly its result; the abstract table changes "
+         "only at those points and no point serves two calls. Partial: the composition into ONE sequential history for a whole "
+         "execution (LfhtLinearizable) is stated, not proved (the del winner is decided after its linearisation point); 'not found' "
+         "needs the key managed by unique adds only or by plain adds only; whole histories are checked by the Wing-Gong oracle on "
+         "explored schedules.",
     note="Trusted: Lean kernel; SC = x86-TSO for this structure (every shared mutation of a next word is a locked RMW; private "
          "initialisation folded into the publishing CAS); abstract GpSpec grace periods; node identifiers never reused in the model; "
          "L1 ⊑ L2 on explored schedules only; split counters / resize_target arbitration belong to C09.",
